@@ -434,6 +434,11 @@ def check_reader(ctx, streams):
 # --------------------------------------------------------------------------------------------------
 # root replacement
 
+# fixed finding C12-root-self-assignment (e27f40b): `document.root = document.root` duplicated prologue and epilogue
+REGRESSION_SELF = {"pro": [("comment", "a"), ("pi", "p", "x")], "root": "<r><k/></r>", "epi": [("pi", "q", ""), ("comment", "b")],
+                   "route": "parse", "prepend": False, "new_root": "self"}
+
+
 def check_set_root(ctx, cases):
     terms, runs = [], []
     for case in cases:
@@ -443,7 +448,10 @@ def check_set_root(ctx, cases):
                 before = doc_obs(d)
                 how = case["new_root"]
                 tgt_pro, tgt_epi = [], []
-                if how == "new":
+                if how == "self":
+                    n = d.root
+                    tgt_pro, tgt_epi = before[0], before[2]
+                elif how == "new":
                     n = new_tag_node("n", {"k": "v"})
                 elif how == "clone":
                     n = d.root.clone(deep=True)
@@ -466,7 +474,8 @@ def check_set_root(ctx, cases):
         except Exception as e:  # noqa: BLE001
             ctx.fail("replacing the root raised %s: %s" % (type(e).__name__, e), case)
             continue
-        terms.append("obs_set_root %s %s" % (cdoc(before[0], DUMMY, before[2]), cdoc(tgt_pro, name, tgt_epi)))
+        terms.append("obs_set_root %s %s %s" % (cbool(how == "self"), cdoc(before[0], name if how == "self" else DUMMY, before[2]),
+                                                cdoc(tgt_pro, name, tgt_epi)))
         runs.append((case, before, name, got, how))
     vals = ctx.coq_eval("c12_sr_%d" % os.getpid(), REQ, terms, chunk=150)
     for (case, before, name, got, how), v in zip(runs, vals):
@@ -589,7 +598,7 @@ def run(ctx, args):
         "io.TextIOWrapper / io.StringIO newline translation and os.linesep (modelled by nl_out), XML line-end "
         "normalisation (modelled by nl_in)",
     ]
-    ctx.regen(["GenWs.v", "GenDoc.v"])
+    ctx.regen(["GenWs.v", "GenDoc.v", "GenPretty.v"])
     ctx.build("Props/C12.vo")
     SCRATCH.mkdir(parents=True, exist_ok=True)
     try:
@@ -620,8 +629,9 @@ def run(ctx, args):
             streams.append((s, r < 0.2 or r > 0.9, 0.1 < r < 0.2 or r > 0.8))
         streams += [(s, False, False) for s in ILL_FORMED]
         check_reader(ctx, streams)
-        hows = ["new", "clone", "detached-child", "other-document-root", "text"]
-        check_set_root(ctx, [dict(dc, new_root=hows[i % len(hows)]) for i, dc in enumerate(docs[:80 if quick else 1000])])
+        hows = ["new", "clone", "self", "detached-child", "other-document-root", "text"]
+        check_set_root(ctx, [dict(REGRESSION_SELF)]
+                       + [dict(dc, new_root=hows[i % len(hows)]) for i, dc in enumerate(docs[:90 if quick else 1000])])
         check_strip(ctx, [dc for dc in docs[:90 if quick else 1000]])
     finally:
         shutil.rmtree(SCRATCH, ignore_errors=True)
